@@ -309,6 +309,29 @@ func (in *Interp) verifIntrinsic(fn *ssa.Function, args []Value) (Value, bool) {
 	case "WatchWrites":
 		in.watchRoots(args[0], in.goString(args[1]))
 		return nil, true
+	case "GuardFields":
+		var fields []string
+		for _, f := range args[3].(Slice).A {
+			fields = append(fields, in.goString(f))
+		}
+		in.guardFields(args[0].(Iface), in.goString(args[1]), in.goString(args[2]), fields)
+		return nil, true
+	case "AtomicFields":
+		var fields []string
+		for _, f := range args[2].(Slice).A {
+			fields = append(fields, in.goString(f))
+		}
+		in.atomicFields(args[0].(Iface), in.goString(args[1]), fields)
+		return nil, true
+	case "MonitorOn":
+		in.ensureMonitor().on = in.resolveBool(args[0].(Bool)).C
+		return nil, true
+	case "Spawn":
+		in.spawn(args[0].(*Closure), nil, nil)
+		return nil, true
+	case "Join":
+		in.join()
+		return nil, true
 	case "WatchObject":
 		iv := args[0].(Iface)
 		if iv.T != nil {
